@@ -16,6 +16,7 @@
 from __future__ import annotations
 
 import json
+import signal
 import logging
 import random
 from pathlib import Path
@@ -211,6 +212,17 @@ class Observer:
         return out
 
 
+OP_TIMEOUT_S = 30
+
+
+class OpHangs(BaseException):
+    pass
+
+
+def _op_alarm(signum, frame):  # noqa: ANN001
+    raise OpHangs()
+
+
 def run_history(rng, length: int, wild: bool, ops: Optional[list] = None, observe: bool = True) -> dict:
     """generate (or re-run) a history on the real code; first property failure stops it"""
     obs = Observer(rng, wild, observe)
@@ -230,7 +242,20 @@ def run_history(rng, length: int, wild: bool, ops: Optional[list] = None, observ
         else:
             op, ok = GH.next_op(rng, obs.arena, wild)
         try:
-            out = obs.step(op, ok)
+            # every public tree operation returns: a walk up a parent chain that never ends (an operation that trusts
+            # stale links) would hang the whole check — a step budget in wall-clock form, generous on purpose
+            signal.signal(signal.SIGALRM, _op_alarm)
+            signal.alarm(OP_TIMEOUT_S)
+            try:
+                out = obs.step(op, ok)
+            finally:
+                signal.alarm(0)
+        except OpHangs:
+            done.append(op)
+            obs.failures.append(("C10/operation-does-not-return",
+                                 f"{op.get('op')} did not return within {OP_TIMEOUT_S}s (a loop over parent / child "
+                                 f"links that never ends?)"))
+            return {"ops": done, "outs": outs, "oks": oks + [ok], "wild": wild, "failures": obs.failures, "invalid": False}
         except (KeyError, IndexError, TypeError):
             return {"ops": done, "outs": outs, "oks": oks, "wild": wild, "failures": [], "invalid": True}
         done.append(op)
@@ -300,6 +325,12 @@ SPECS = {
              'where str(<start>.<r>[0:2]) != str(<start>.<r>[1:3])\nwhere str(<start>).count("q") == 4\n',
     "rep": f'<start> ::= <len> ":" <item>{{int(<len>)}} "."\n<len> ::= <d>\n<d> ::= "1"|"2"|"3"|"4"|"5"\n'
            '<item> ::= <k> <k>?\n<k> ::= "x"|"y"\nwhere str(<start>).count("y") >= 2\n',
+    # a parameterised generator with its converse converter: nodes carry `sources` (the recorded arguments), which
+    # the search operators must copy, never share between input and result (seeded change C10-4)
+    "gen": 'def twice(s):\n    return s + s\ndef firsthalf(s):\n    return s[:max(1, len(s) // 2)]\n'
+           '<start> ::= <tag> ":" <payload> ";" <tag>\n<payload> ::= <digit>+ := twice(str(<half>))\n'
+           f'<half> ::= <digit>{{1,3}} := firsthalf(str(<payload>))\n<tag> ::= <digit> <digit>\n<digit> ::= {DIG}\n'
+           'where int(<tag>) % 7 == 3\nwhere int(<payload>) % 2 == 0\n',
     "bits": '<start> ::= <hdr> <pl>\n<hdr> ::= <bit>{8}\n<bit> ::= 0 | 1\n<pl> ::= <byte>{1,4}\n<byte> ::= b"\\x00" | b"\\x7f" | b"A"\n'
             'where bytes(<hdr>)[0] % 3 == len(bytes(<pl>)) % 3\nwhere bytes(<hdr>)[0] > 40\n',
 }
@@ -579,7 +610,7 @@ def main(tier: str) -> int:
     # search runs
     srng = run.rng("search")
     plans = [("mod", 10, 8, 14), ("items", 10, 8, 14), ("len", 8, 6, 10), ("slice", 10, 8, 12), ("bits", 8, 6, 10),
-             ("rep", 10, 8, 12)]
+             ("rep", 10, 8, 12), ("gen", 10, 8, 10)]
     reps = 1 if tier == "quick" else 6
     for _ in range(reps):
         for name, pop, gens, want in plans:
